@@ -79,7 +79,18 @@ fn check_structured(d: &AbstractDepfile, text: &str, job: &str, res: &mut ShardR
             replay,
         ),
         Ok(Ok(deps)) => {
-            if deps != expected {
+            // For a target that appears in several entries only the set of
+            // prerequisites is compared (their relative order across entries
+            // of different targets is a matter of convention).
+            let same = if d.has_repeated_target() {
+                let (mut a, mut b) = (deps.clone(), expected.clone());
+                a.sort();
+                b.sort();
+                a == b
+            } else {
+                deps == expected
+            };
+            if !same {
                 let key = if d.has_repeated_target() {
                     "repeated-target-loses-prerequisites"
                 } else {
@@ -234,13 +245,22 @@ pub fn run(ctx: &mut Ctx) -> ShardResult {
             let fams = if parts[1] == "formats" {
                 families(ctx.tier)
             } else {
-                vec![(
-                    abstract_depfiles(2, 2, true)
-                        .into_iter()
-                        .filter(|d| d.has_repeated_target())
-                        .collect(),
-                    Some(1),
-                )]
+                vec![
+                    (
+                        abstract_depfiles(2, 2, true)
+                            .into_iter()
+                            .filter(|d| d.has_repeated_target())
+                            .collect(),
+                        Some(1),
+                    ),
+                    (
+                        abstract_depfiles(3, 1, true)
+                            .into_iter()
+                            .filter(|d| d.entries.len() == 3 && d.has_repeated_target())
+                            .collect(),
+                        Some(1),
+                    ),
+                ]
             };
             let mut idx = 0u64;
             for (list, dev) in fams {
